@@ -394,7 +394,10 @@ class C18Hibernation(Monitor):
                         self.v("a leaf deme is flagged hibernating", deme=d.id)
                     continue
                 if d.id in self.participants and d.is_active:
-                    want = d.id not in got
+                    took = [c for c in d.children if c.id not in self.existing]
+                    if (d.id in got) != bool(took):
+                        self.cov("round_with_seeds_returned_but_no_sprout_taken")
+                    want = not took  # the rule speaks of sprouts *taken*, not of seeds offered
                     self.cov(f"flag_rule_checked.{'sleep' if want else 'awake'}.{'root' if li == 0 else 'intermediate'}")
                     if f != want:
                         self.v(
